@@ -36,6 +36,13 @@ files next to segment directories on disk (finding C03-inflight-hides-published,
 reads were excluded from the comparison on both sides. They are compared now: no state is racy. -/
 def racy (_s : Shard) (_ntypes : Nat) : Bool := false
 
+/-- With several event types the planner's output ids depend on hash-map iteration order; from the
+second round on that changes which labels are chunked together, hence which directories are only
+partially drained (COUNT) and how many output directories exist. After the first round such
+histories are compared on the selection and the WAL only. -/
+def showReadKeys (s : Shard) : String :=
+  if s.poisoned then "poisoned" else s!"keys={joinNat (sortNat (visibleKeys s))}"
+
 def showRead (s : Shard) (ntypes : Nat) : String :=
   if s.poisoned then "poisoned" else
   if racy s ntypes then "racy" else
@@ -54,6 +61,11 @@ def showLs (s : Shard) (ntypes : Nat) : String :=
     else joinNat (((List.range 6).map fun lvl => (segs.filter (· / levelSpan == lvl)).length))
   s!"wal={if wal.isEmpty then "-" else ",".intercalate wal} segs={shown}"
 
+def showLsWal (s : Shard) : String :=
+  let ids := sortNat (s.wal.map (·.1))
+  let wal := ids.map fun i => s!"{i}:{((s.wal.filter (·.1 == i)).flatMap (·.2)).length}"
+  s!"wal={if wal.isEmpty then "-" else ",".intercalate wal}"
+
 def parseKV (key : String) (t : String) : Option Nat :=
   match t.splitOn "=" with
   | [k, v] => if k == key then v.toNat? else none
@@ -68,14 +80,14 @@ def answerWith (compactFn : Shard → Shard) (line : String) : String :=
     | ["sys", c, k, t] =>
       match parseKV "cap" c, parseKV "k" k, parseKV "t" t, toks.mapM parseTok with
       | some cap, some km, some nt, some toks =>
-        let (_, obs) := toks.foldl (fun (acc : Shard × List String) t =>
-          let (s, obs) := acc
+        let (_, _, obs) := toks.foldl (fun (acc : Shard × Bool × List String) t =>
+          let (s, loose, obs) := acc
           match t with
-          | .op o => (step s o, obs)
-          | .read => (s, showRead s nt :: obs)
-          | .ls => (s, showLs s nt :: obs)
-          | .killMid => (crashMid s, obs)
-          | .compact => (compactFn (drainAll s), obs)) (Shard.init cap km, [])
+          | .op o => (step s o, loose, obs)
+          | .read => (s, loose, (if loose then showReadKeys s else showRead s nt) :: obs)
+          | .ls => (s, loose, (if loose then showLsWal s else showLs s nt) :: obs)
+          | .killMid => (crashMid s, loose, obs)
+          | .compact => (compactFn (drainAll s), loose || decide (1 < nt), obs)) (Shard.init cap km, false, [])
         " ; ".intercalate obs.reverse
       | _, _, _, _ => "bad-op"
     | _ => "bad-op"
